@@ -144,7 +144,7 @@ def generate(seed, tier="quick", faults=True):
                 op["tick_inside"] = {"before_fft": gen.randrange(0, 3), "dt": gen.choice([31.0, 61.0])}
             ops.append(op)
         elif r < 0.64:
-            ops.append({"op": "threads", "n": gen.choice([1, 1, 2, 3, 4, 4, 8])})
+            ops.append({"op": "threads", "n": gen.choice([1, 1, 2, 3, 4, 4, 8, 5, 6, 7])})
         elif r < 0.70:
             ops.append({"op": "reset"})
         elif r < 0.75:
